@@ -26,6 +26,7 @@ import Nitime.Model.C15Reader
 import Nitime.Model.C15Opts
 import Nitime.Model.C15Obj
 import Nitime.Model.C15Band
+import Nitime.Model.C15Cross
 import Nitime.Model.C19
 
 namespace Nitime.C15
@@ -336,6 +337,10 @@ def handle (args : List String) : String :=
   | ["shiftsrc", n] => Shift.handleShift n
   -- band <n> <Fs> <lb> <ub|->: which DFT bins 0..n/2 `FilterAnalyzer.filtered_fourier` keeps (Model/C15Band.lean)
   | ["band", n, fs, lb, ub] => Band.handleBand n fs lb ub
+  -- firhist <code|keyed|norate> <taps,lb,ub,win,rate;…>: which request's design answers every request of a history (Model/C15Cross.lean)
+  | ["firhist", v, reqs] => Cross.handleFirhist v reqs
+  -- concatdt <dtype:re/im,…;…>: dtype and samples of the block `concatenate_time_series` builds from runs of different dtypes
+  | ["concatdt", runs] => Cross.handleConcatDt runs
   | _ => "bad-op"
 
 end Nitime.C15
